@@ -225,6 +225,9 @@ def reconfirm(cl, h, names, g):
     if w.get("kind") == "witness":
         pt = {v: F(x, w["d"]) for v, x in w["q"].items()}
         return clause_violated_exact(cl, pt)
+    if w.get("kind") == "witness2":
+        pt = {v: F(x) + F(w["w"].get(v, 0), w["d"]) for v, x in w["q"].items()}
+        return clause_violated_exact(cl, pt)
     if g > 0:
         for q in grid_points(names, g):
             if _snapped_sat(cl, q):
